@@ -281,7 +281,7 @@ theorem callImplT_compose2 {rm : ResSite → ResMode} (hrm : ∀ k, rm k ≠ .de
 theorem callImplT_exceptionCatch {rm : ResSite → ResMode} (hrm : ∀ k, rm k ≠ .decays) (f c : FExpr) (ex : Bool)
     (args : List Val) :
     callImplT rm (.exceptionCatch f c) ex args
-      = (callImplT rm f false args).orCatch (callImplT rm c false []) := by
+      = (callImplT rm f false args).orCatch c.handles (callImplT rm c false []) := by
   simp only [callImplT]
   have h1 : ∀ site, (fun v => fwdRes (rm site) (afRes rm f (nullary false args) v)) = (fun v => v) := by
     intro site; funext r; rw [afRes_of_ne hrm, fwdRes_of_ne (hrm _)]
@@ -297,15 +297,17 @@ theorem callImplT_explicit {rm : ResSite → ResMode} (hrm : ∀ k, rm k ≠ .de
   | vleaf id ret thr => rfl
   | rleaf id ps c t thr => rfl
   | pleaf id ps ret thr => rfl
+  | qleaf id ps ret thr => rfl
+  | pcatch id ret hs => rfl
   | un n f => rw [callImplT_un hrm, callImplT_un hrm]
   | compose1 s g => rw [callImplT_compose1 hrm, callImplT_compose1 hrm]
   | compose2 s g1 g2 => rw [callImplT_compose2 hrm, callImplT_compose2 hrm]
   | exceptionCatch f c => rw [callImplT_exceptionCatch hrm, callImplT_exceptionCatch hrm]
 
 /-- the equations of `callImpl` (the current table) -/
-theorem callImpl_leaf (id : Nat) (ps : List Ty) (ret : Option Ty) (thr : Bool) (args : List Val) :
+theorem callImpl_leaf (id : Nat) (ps : List Ty) (ret : Option Ty) (thr : Option Exc) (args : List Val) :
     callImpl (.leaf id ps ret thr) args
-      = ⟨[⟨id, List.zipWith conv ps args⟩], if thr then .threw else .ok (leafRet id ret (List.zipWith conv ps args))⟩ := rfl
+      = ⟨[⟨id, List.zipWith conv ps args⟩], leafRes thr (leafRet id ret (List.zipWith conv ps args))⟩ := rfl
 
 theorem callImpl_un (n : Node) (f : FExpr) (args : List Val) :
     callImpl (.un n f) args = (callImpl f (argsImpl n args)).mapRes (resOf n) := by
@@ -323,7 +325,7 @@ theorem callImpl_compose2 (s g1 g2 : FExpr) (args : List Val) :
 
 theorem callImpl_exceptionCatch (f c : FExpr) (args : List Val) :
     callImpl (.exceptionCatch f c) args
-      = (callImpl f args).orCatch (callImpl c []) :=
+      = (callImpl f args).orCatch c.handles (callImpl c []) :=
   callImplT_exceptionCatch resultMode_ne_decays f c false args
 
 /-- `slot_call::call_it` (explicit template arguments) calls the functor like a direct call does -/
@@ -340,6 +342,8 @@ theorem callImplT_eq_callSpec (rm : ResSite → ResMode) (hrm : ∀ k, rm k ≠ 
   | vleaf id ret thr => intro ex args _; rfl
   | rleaf id ps c t thr => intro ex args _; rfl
   | pleaf id ps ret thr => intro ex args _; rfl
+  | qleaf id ps ret thr => intro ex args _; rfl
+  | pcatch id ret hs => intro ex args _; rfl
   | un n f ih =>
     intro ex args h
     simp only [wellTyped, Bool.and_eq_true] at h
@@ -732,6 +736,17 @@ theorem callO_inv {n0 hops0} (pk : AdaptorKind → ParamKind) (hpk : ∀ k, pk k
     simp only [callO, hpk]
     have e1 := thread_enter_pass_inv (ps .adaptorFunctor) ex h args hi ha
     exact leafRun_inv id ptr pks retv _ _ e1.1 (fun a hm => (e1.2 a hm).2)
+  | mleaf id der cm pks retv =>
+    intro ex args h _ hi ha
+    simp only [callO, hpk]
+    have e1 := thread_enter_pass_inv (ps .adaptorFunctor) ex h args hi ha
+    have e2 := thread_enter_inv false _ (List.take 1 ((thread (enterArg .forwardingRef ex) h args).2.map (passOn (ps .adaptorFunctor)))) e1.1
+      (fun a hm => e1.2 a (List.mem_of_mem_take hm))
+    refine leafRun_inv id true _ retv _ _ e2.1 ?_
+    intro a hm
+    rcases List.mem_append.mp hm with hm | hm
+    · exact (e2.2 a hm).2
+    · exact (e1.2 a (List.mem_of_mem_drop hm)).2
   | un n f ih =>
     intro ex args h hn hi ha
     simp only [OExpr.noRRef, Bool.and_eq_true] at hn
@@ -1128,6 +1143,17 @@ theorem callO_frame {o v} (pk : AdaptorKind → ParamKind) (hpk : ∀ k, pk k = 
     simp only [callO, hpk]
     have e1 := thread_enter_pass_frame (ps .adaptorFunctor) ex h args hf ha
     exact leafRun_frame id ptr pks retv _ _ e1.1 e1.2
+  | mleaf id der cm pks retv =>
+    intro ex args h _ hf ha
+    simp only [callO, hpk]
+    have e1 := thread_enter_pass_frame (ps .adaptorFunctor) ex h args hf ha
+    have e2 := thread_enter_frame false _ (List.take 1 ((thread (enterArg .forwardingRef ex) h args).2.map (passOn (ps .adaptorFunctor)))) e1.1
+      (fun a hm => e1.2 a (List.mem_of_mem_take hm))
+    refine leafRun_frame id true _ retv _ _ e2.1 ?_
+    intro a hm
+    rcases List.mem_append.mp hm with hm | hm
+    · exact e2.2 a hm
+    · exact e1.2 a (List.mem_of_mem_drop hm)
   | un n f ih =>
     intro ex args h hb hf ha
     rw [boundMut_un] at hb
@@ -1182,6 +1208,17 @@ theorem callO_fwd_inv {n0 hops0} (pk : AdaptorKind → ParamKind) (hpk : ∀ k, 
     simp only [callO, hpk]
     have e1 := thread_enter_pass_obj (ps .adaptorFunctor) ex h args hi ha
     exact leafRun_inv id ptr pks retv _ _ e1.1 e1.2
+  | mleaf id der cm pks retv =>
+    intro ex args h _ hi ha
+    simp only [callO, hpk]
+    have e1 := thread_enter_pass_obj (ps .adaptorFunctor) ex h args hi ha
+    have e2 := thread_enter_obj false _ (List.take 1 ((thread (enterArg .forwardingRef ex) h args).2.map (passOn (ps .adaptorFunctor)))) e1.1
+      (fun a hm => e1.2 a (List.mem_of_mem_take hm))
+    refine leafRun_inv id true _ retv _ _ e2.1 ?_
+    intro a hm
+    rcases List.mem_append.mp hm with hm | hm
+    · exact e2.2 a hm
+    · exact e1.2 a (List.mem_of_mem_drop hm)
   | un n f ih =>
     intro ex args h hn hi ha
     simp only [OExpr.fwdOnly, Bool.and_eq_true] at hn
@@ -1442,6 +1479,19 @@ theorem callO_keep {n0 v0 m0} (pk : AdaptorKind → ParamKind) (hpk : ∀ k, pk 
     simp only [callO, hpk]
     have e1 := thread_enter_pass_keep (ps .adaptorFunctor) ex h args hk ha
     exact leafRun_keep id ptr pks retv _ _ hro e1.1 e1.2
+  | mleaf id der cm pks retv =>
+    intro ex args h _ hro hk ha
+    simp only [OExpr.readOnly, Bool.and_eq_true] at hro
+    simp only [callO, hpk]
+    have e1 := thread_enter_pass_keep (ps .adaptorFunctor) ex h args hk ha
+    have e2 := thread_enter_keep false _ (List.take 1 ((thread (enterArg .forwardingRef ex) h args).2.map (passOn (ps .adaptorFunctor)))) e1.1
+      (fun a hm => e1.2 a (List.mem_of_mem_take hm))
+    refine leafRun_keep id true _ retv _ _ ?_ e2.1 ?_
+    · simp only [hro.1, if_true, List.all_cons, hro.2, Bool.and_true]; rfl
+    · intro a hm
+      rcases List.mem_append.mp hm with hm | hm
+      · exact e2.2 a hm
+      · exact e1.2 a (List.mem_of_mem_drop hm)
   | un n f ih =>
     intro ex args h hn hro hk ha
     simp only [OExpr.noRRef, Bool.and_eq_true] at hn
